@@ -100,7 +100,7 @@ class ExcLattice:
 # ---------------------------------------------------------------------------
 class Op:
     __slots__ = ('kind', 'node', 'val', 'info', 'fn', 'depth', 'loop', 'seq',
-                 'recv', 'recv_val')
+                 'recv', 'recv_val', 'fenv', 'facts')
 
     def __init__(self, kind, node, val=None, info=None, fn=None, depth=0, loop=0):
         self.kind = kind
@@ -113,6 +113,8 @@ class Op:
         self.seq = -1
         self.recv = None        # receiver class of a resolved method call
         self.recv_val = None
+        self.fenv = None        # field environment when the op executed
+        self.facts = None
 
     @property
     def line(self):
@@ -168,6 +170,8 @@ class St:
         op.fn = op.fn or self.fn
         op.depth = self.depth
         op.loop = self.loop
+        op.fenv = self.fenv
+        op.facts = self.facts
         return self.clone(trace=(op, self.trace), n=self.n + 1)
 
     def bind(self, name, val):
